@@ -141,6 +141,11 @@ func (t *Tester) run(testFile string) (*TestResult, error) {
 					return
 				}
 			case *ast.SubroutineDeclaration:
+				// A subroutine which has parameters could not be called as a test,
+				// it is a helper e.g. the target of testing.mock()
+				if len(st.Parameters) > 0 {
+					continue
+				}
 				// Some functions like "testing.table_set()" will take side-effect for another testing subroutine
 				// so we always initialize interpreter, inject testing functions for each subroutine
 				i := t.setupInterpreter(defs)
